@@ -1233,6 +1233,13 @@ fn grammar(input: Span) -> IResult<Span, (Vec<Expr>, Vec<Statement>)> {
     Ok((input, (arena, statements)))
 }
 
+#[cfg(feature = "verif")]
+impl NontermDefn {
+    pub fn verif_parts(&self) -> (Ustr, HumanSpan, Option<(Ustr, HumanSpan)>, ExprId) {
+        (self.lhs_name, self.lhs_span, self.shell, self.rhs_expr_id)
+    }
+}
+
 #[cfg(test)]
 pub(crate) mod tests {
     use super::*;
